@@ -12,14 +12,17 @@ ENUM_TOP = int(_os.environ.get("VERIF_ENUM_TOP", "6"))  # largest coordinate of 
 ID = "C07"
 LEVEL = "exploration"
 RULE = (
-    "(a) bounded-exhaustive: every (table, queries) pair of multisets of <=2 rows x <=2 queries over coordinates 0..4 "
-    "(quick) or <=2 x <=3 over 0..6 (thorough), in 4 variants (second chromosome in neither/table/queries/both), all "
-    "three modes x keep_empty, every in_range bound in {None, 0..max}; (b) Hypothesis: relation-biased tables up to 40 "
-    "rows (nested, duplicate, abutting), queries that repeat/overlap, empty tables, single-chromosome fast path, "
-    "non-default row index, in_range/in_ranges with start/end None or given, into_ranges over string/float columns with "
-    "default / callable / constant summaries. Oracle: the textbook inequalities (outer: end > qs and start < qe; inner: "
-    "start >= qs and end <= qe; trim: outer + clipping) evaluated row by row on a row-id column. Non-trivial = a query "
-    "with a hit and a boundary-touching non-hit, or a nested/duplicated table, or a chromosome absent from one side."
+    "(a) bounded-exhaustive: every (table, queries) pair of multisets of <=2 rows x <=2 queries over coordinates "
+    "0..4 (quick) or <=2 x <=3 over 0..6 (thorough), in 4 variants (second chromosome in "
+    "neither/table/queries/both), all three modes x keep_empty, every in_range bound in {None, 0..max}; (b) "
+    "Hypothesis: relation-biased tables up to 40 rows (nested, duplicate, abutting), queries that repeat/overlap, "
+    "empty tables, single-chromosome fast path, non-default row index, in_range/in_ranges with start/end None or "
+    "given, into_ranges over string/float columns with default / callable / constant summaries. Half of the cases "
+    "are moved to 3e8 / around 2^31 / 2^32; start/end arrive as int64, int32, uint32, uint64 or float64 columns; "
+    "the float column holds missing values on 3 cases in 8. Oracle: the textbook inequalities (outer: end > qs "
+    "and start < qe; inner: start >= qs and end <= qe; trim: outer + clipping) evaluated row by row on a row-id "
+    "column. Non-trivial = a query with a hit and a boundary-touching non-hit, or a nested/duplicated table, or a "
+    "chromosome absent from one side."
 )
 QUICK = {"examples": 1200, "shards": 16, "budget_s": 300}
 THOROUGH = {"examples": 16000, "shards": 16, "budget_s": 3000}
